@@ -106,6 +106,7 @@ Definition w_od := 20. Definition w_nostrip := 21. Definition w_nopal := 22.
 Definition w_dfsdmeta := 23. Definition w_sdmeta := 24. Definition w_scale := 25. Definition w_strs := 26.
 Definition w_range := 27. Definition w_none := 28. Definition w_dfsdp := 29. Definition w_dfr8p := 30.
 Definition w_padok := 31. Definition w_dstrs := 32. Definition w_dname := 33.
+Definition w_df24s := 34. Definition w_dfr8s := 35.
 
 Definition line := list tok.
 
@@ -284,7 +285,11 @@ Definition img_views (writer ril : Z) (l : list image) : list line :=
   [[TS w_dfr8; TS w_n; TI (zlen r8)]] ++ map dfr8_line (number 0 r8) ++
   map (fun km => [TS w_dfr8p; TI (fst km); TI (im_x (snd km)); TI (im_y (snd km)); TH (pixels (snd km) 0); TS w_padok])
       (number 0 r8) ++
+  (* the same images for a caller that knows the dimensions and reads one image after the other without asking *)
+  map (fun km => [TS w_dfr8s; TI (fst km); TI (im_x (snd km)); TI (im_y (snd km)); TH (pixels (snd km) 0)]) (number 0 r8) ++
   [[TS w_df24; TS w_n; TI (zlen r24)]] ++ map (df24_line writer ril) (number 0 r24) ++
+  map (fun km => [TS w_df24s; TI (fst km); TI (im_x (snd km)); TI (im_y (snd km));
+                  TH (pixels (snd km) (if ril <? 0 then 0 else ril))]) (number 0 r24) ++
   [[TS w_gr; TS w_n; TI (zlen l)]] ++ map (gr_line w_gr writer ril) (number 0 l) ++
   [[TS w_dfp; TS w_n; TI (zlen pals)]] ++ map (fun kp => [TS w_dfp; TI (fst kp); TH (snd kp)]) (number 0 pals) ++
   (if writer =? 1 then [[TS w_vgi; TS w_n; TI 0]; [TS w_grr; TS w_nostrip; TI 0]]
